@@ -257,3 +257,23 @@ package keeper
 //@   loop 1 invariant forall k bytes :: V0[k] != None && val(V0[k]).ConsPower > 0 ==> LastValidatorPowers[k] == Some(val(V0[k]).ConsPower)
 //@   loop 1 invariant forall u int :: 0 <= u && u < len(updates) ==> updates[u].Power >= 0
 //@   assigns Validators, ValidatorsByConsAddr, LastValidatorPowers
+
+//@ func (Keeper) ChangeExecutor
+//@   let V0 := Validators
+//@   let nv := plan.NextValidator
+//@   let pva := addrBytes(2, nv.OperatorAddress)
+//@   let pcons := pkAddress(val(nv.ConsensusPubkey).cachedValue)
+//@   ensures err == nil ==> Validators[pva] == Some(nv)                                                                                   // C14: plan_validator_stored
+//@   ensures err == nil ==> forall k bytes :: k != pva && V0[k] != None ==> Validators[k] != None && val(Validators[k]).ConsPower == 0
+//@        && val(Validators[k]).OperatorAddress == val(V0[k]).OperatorAddress && val(Validators[k]).ConsensusPubkey == val(V0[k]).ConsensusPubkey   // C14: every_other_validator_unbonded
+//@   ensures err == nil ==> forall k bytes :: k != pva && V0[k] == None ==> Validators[k] == None                                          // C14: no_other_record_created
+//@   ensures err == nil ==> ValidatorsByConsAddr == old(ValidatorsByConsAddr)[pcons := Some(pva)]                                          // C14: key_index_follows
+//@   ensures err == nil ==> LastValidatorPowers == old(LastValidatorPowers)
+//@   ensures err == nil ==> Params != None && old(Params) != None && val(Params).BridgeExecutors == plan.NextExecutors && val(Params).Admin == val(old(Params)).Admin
+//@        && val(Params).MaxValidators == val(old(Params)).MaxValidators && val(Params).HookMaxGas == val(old(Params)).HookMaxGas          // C14: executors_replaced_exactly
+//@   ensures err == nil ==> card(Validators) <= val(Params).MaxValidators                                                                  // C13: cap_respected
+//@   walk 0 invariant forall k bytes :: V0[k] == None ==> Validators[k] == None
+//@   walk 0 invariant forall k bytes :: V0[k] != None && $idx(k) < $i ==> Validators[k] != None && val(Validators[k]).ConsPower == 0
+//@        && val(Validators[k]).OperatorAddress == val(V0[k]).OperatorAddress && val(Validators[k]).ConsensusPubkey == val(V0[k]).ConsensusPubkey
+//@   walk 0 invariant forall k bytes :: V0[k] != None && $idx(k) >= $i ==> Validators[k] == V0[k]
+//@   assigns Validators, ValidatorsByConsAddr, Params
